@@ -314,9 +314,17 @@ func (in *Interp) newCell(t types.Type) *Cell {
 func (in *Interp) newArray(et types.Type, n int) *Cell {
 	in.allocs++
 	c := &Cell{id: in.allocs, agg: 2, typ: et}
+	// element cells are created on first touch (slices made with a large capacity)
 	c.sub = make([]*Cell, n)
-	for i := range c.sub {
-		c.sub[i] = in.newCell(et)
+	return c
+}
+
+// elem returns the i-th element cell of an array cell, creating it lazily.
+func (in *Interp) elem(arr *Cell, i int) *Cell {
+	c := arr.sub[i]
+	if c == nil {
+		c = in.newCell(arr.typ)
+		arr.sub[i] = c
 	}
 	return c
 }
@@ -334,8 +342,8 @@ func (in *Interp) load(c *Cell) Value {
 		return StructV{f}
 	default:
 		e := make([]Value, len(c.sub))
-		for i, s := range c.sub {
-			e[i] = in.load(s)
+		for i := range c.sub {
+			e[i] = in.load(in.elem(c, i))
 		}
 		return ArrayV{e}
 	}
@@ -359,8 +367,8 @@ func (in *Interp) store(c *Cell, v Value) {
 		if !ok || len(av.e) != len(c.sub) {
 			panic(fmt.Sprintf("store: array shape mismatch %T", v))
 		}
-		for i, s := range c.sub {
-			in.store(s, av.e[i])
+		for i := range c.sub {
+			in.store(in.elem(c, i), av.e[i])
 		}
 	}
 }
@@ -545,7 +553,7 @@ func (in *Interp) describe(v Value, depth int) string {
 		}
 		var parts []string
 		for i := 0; i < x.len && i < 8; i++ {
-			parts = append(parts, in.describe(in.loadQuiet(x.arr.sub[x.off+i]), depth+1))
+			parts = append(parts, in.describe(in.loadQuiet(in.elem(x.arr, x.off+i)), depth+1))
 		}
 		return "[" + strings.Join(parts, " ") + "]"
 	case Iface:
